@@ -451,7 +451,7 @@ def families(tier, seed):
     F.append(Family("mutators", make_mutators, "insert/__setitem__/append/reset_children x index x foreign-parent", nontrivial="roundtrip"))
     F.append(Family("text/sequence", make_text_sequence, "an unterminated text from %r, then a well-formed text of 3 pieces: round trip of the second call" % (POISON,), args=dict(k=3), nontrivial="roundtrip", max_forks=20000))
     tpl = [("attr", ["<a ", (3, 'c="x '), ">t</a>"]), ("tag", ["<", (3, "ab/ >"), "x"]), ("ref", ["a&", (3, "#x1a;"), "b"]), ("comment", ["<!", (3, "-a>"), "-->"]),
-           ("close", ["<a><b>", (4, "</ab>"), ""])]
+           ("close", ["<a><b>", (4, "</ab>"), ""]), ("marked", ["a<![", (3, "CDi[ ]>1"), "]]>b"]), ("decl", ["<!", (3, "D[a ->"), ">t"])]
     for name, spec in tpl:
         F.append(Family("text/%s" % name, make_text, "real html.parser on template %r" % ("".join(s if isinstance(s, str) else "<%d:%s>" % s for s in spec),),
                         args=dict(spec=spec), nontrivial=None, required=False, max_forks=20000))
